@@ -163,6 +163,18 @@ def rerun_presolve_off(case, tier="quick", G=None):
     return run_model(case, tier, G=G, kwargs=kwargs)
 
 
+def count_artifact(case, tier, n):
+    """True if a minimum search returns a different number of routes with HiGHS presolve off (see rerun_presolve_off)."""
+    try:
+        r2 = rerun_presolve_off(case, tier)
+        if not r2.solved or r2.crashed:
+            return False
+        routes = r2.solution.get(ROUTE_KEY[case["cls"]]) or []
+        return len([x for x in routes if x]) != n
+    except Exception:
+        return False
+
+
 def solver_artifact(case, tier, r, objective_tol=1e-6):
     """True if the solved status (or the objective) of run `r` changes when presolve is switched off."""
     try:
